@@ -21,16 +21,20 @@ Definition read (cs : list Row) (a : bool * Z * Z) : option (list Row) :=
 
 Variable counts : list Z.          (* minutes of the considered timeframes *)
 Variable F : nat -> list (list (option (list Row))) -> St -> St.
+Variable P : list (option (list Row)) -> St.       (* the state before the first step, from what _prepare_times_before_simulation reads *)
+
+Definition reads_prep (css : list (list Row)) : list (option (list Row)) :=
+  match css with cs :: _ => map (read cs) prep_first | [] => [] end.
 
 (* css: one input array per symbol *)
 Definition reads_step (css : list (list Row)) (i : nat) : list (list (option (list Row))) :=
   map (fun cs => flat_map (fun count => map (read cs) (step_accesses (Z.of_nat i) count)) counts) css.
-Definition run_step (css : list (list Row)) (m : nat) (s0 : St) : St :=
-  fold_left (fun s i => F i (reads_step css i) s) (seq 0 m) s0.
+Definition run_step (css : list (list Row)) (m : nat) : St :=
+  fold_left (fun s i => F i (reads_step css i) s) (seq 0 m) (P (reads_prep css)).
 
 (* the fast simulator: chunk j covers rows j*step .. j*step+step-1 *)
 Definition reads_fast (step : Z) (css : list (list Row)) (j : nat) : list (list (option (list Row))) :=
   map (fun cs => flat_map (fun count => map (read cs) (fast_accesses (Z.of_nat j * step) step count)) counts) css.
-Definition run_fast (step : Z) (css : list (list Row)) (k : nat) (s0 : St) : St :=
-  fold_left (fun s j => F j (reads_fast step css j) s) (seq 0 k) s0.
+Definition run_fast (step : Z) (css : list (list Row)) (k : nat) : St :=
+  fold_left (fun s j => F j (reads_fast step css j) s) (seq 0 k) (P (reads_prep css)).
 End Engine.
